@@ -114,7 +114,7 @@ pub const FORMAT: &str = "ippsim-replay-1";
 const HASH_LABEL: u64 = 0x6861_7368; // "hash"
 
 /// Execute one case on a fresh OS thread whose HashMap keys are a function of `hash_seed` only.
-/// A wall-clock watchdog (default 60 s for a run that takes microseconds to milliseconds) turns a run that never
+/// A wall-clock watchdog (default 240 s for a run that takes microseconds to, for the largest bombs, a few seconds) turns a run that never
 /// returns (deadlocked bridge, lost wake-up under a real `block_on`, infinite loop) into a reported violation
 /// instead of a hung check; the stuck thread is abandoned.
 pub fn execute<P: Prop>(prop: &P, hash_seed: u64, case: &P::Case, record: bool) -> RunReport {
@@ -142,7 +142,7 @@ pub fn execute<P: Prop>(prop: &P, hash_seed: u64, case: &P::Case, record: bool) 
             let _ = tx.send(r);
         })
         .expect("spawn run thread");
-    let secs = std::env::var("VERIF_WATCHDOG_S").ok().and_then(|v| v.parse().ok()).unwrap_or(60u64);
+    let secs = std::env::var("VERIF_WATCHDOG_S").ok().and_then(|v| v.parse().ok()).unwrap_or(240u64);
     match rx.recv_timeout(std::time::Duration::from_secs(secs)) {
         Ok(r) => r,
         Err(std::sync::mpsc::RecvTimeoutError::Timeout) => {
